@@ -105,6 +105,16 @@ def explicit_random_state(ctx, rule='C09-R1'):
     ctx.floor(rule, 'estimator constructions taking a random_state', n, 1)
 
 
+def _only_called_from(fx, q, root, _seen=None) -> bool:
+    """q is a helper of `root`: it has callers, and every one of them is root or such a helper."""
+    _seen = _seen or set()
+    if q in _seen:
+        return True
+    _seen.add(q)
+    callers = {c for c in fx.callers.get(q, set()) if c in fx.summ}
+    return bool(callers) and all(c == root or _only_called_from(fx, c, root, _seen) for c in callers)
+
+
 def rng_confinement(ctx, rule='C09-R2'):
     """Consumers / re-seeders of the global generator are confined to the mock-data generators and
     tmp_seed; every path from outside mocker to a consumer lies inside `with tmp_seed(<int>)`."""
@@ -121,7 +131,7 @@ def rng_confinement(ctx, rule='C09-R2'):
         if tag(c) == 'mcall' and c[2] in SAMPLING_METHODS and kwarg(c, 'random_state') is None:
             consumer = True
         if head in NP_RESEEDERS:
-            ctx.check(q == TMP_SEED, rule, q, e.node, e.loc(),
+            ctx.check(q == TMP_SEED or _only_called_from(fx, q, TMP_SEED), rule, q, e.node, e.loc(),
                       f'{head} re-seeds / overwrites the global NumPy generator outside tmp_seed',
                       instance=f'{head} in {q}')
             continue
@@ -134,8 +144,8 @@ def rng_confinement(ctx, rule='C09-R2'):
         for w in e.withs:
             if tag(w) == 'call' and w[1] == ('g', TMP_SEED):
                 seed = w[2][0] if w[2] else dict(w[3]).get('seed')
-                if seed is not None and _seed_ok(seed):
-                    return True
+                if seed is not None and (_seed_ok(seed) or _seed_term_ok(fx, p, seed, e.func, 0)[0]):
+                    return True         # a fixed integer, possibly handed down by every caller
         return False
     # unprotected consumers, propagated up the call graph
     unprot = {}
@@ -227,7 +237,12 @@ def tmp_seed_typestate(ctx, rule='C09-R3'):
     # nothing that can raise between seeding and entering the try
     if tnodes:
         first_in_try = min((e.seq for e in evs if any(t is tnodes[0] for t, _ in e.tries)), default=y.seq)
-        between = [e for e in evs if s.seq < e.seq < first_in_try and e.kind in ('call', 'raise', 'assert')]
+        def cm_creation(e):
+            # calling a @contextmanager function only creates the manager: nothing of its body runs yet
+            h = call_head(e) if e.kind == 'call' else None
+            return h in p.funcs and any(d.endswith('contextmanager') for d in p.funcs[h].decorators)
+        between = [e for e in evs if s.seq < e.seq < first_in_try and e.kind in ('call', 'raise', 'assert')
+                   and not cm_creation(e)]
         ctx.check(not between, rule, TMP_SEED, (between[0].node if between else s.node), s.loc(),
                   'a statement that can raise sits between np.random.seed() and the try block',
                   instance='no raising statement between seed() and try')
